@@ -12,7 +12,7 @@ func init() {
 	register(&propertyDef{
 		id:    "C09",
 		title: "the result does not depend on how fast goroutines are scheduled",
-		rules: []ruleFunc{c09R1, c09R2, c09R3, c09R4},
+		rules: []ruleFunc{c09R1, c09R2, c09R3, c09R4, c09R5},
 		decided: "the fallback detector is time-based (retries x delay), so schedule independence needs that it can never observe `waiting for input` for a step whose input was delivered. Decided as structural conditions on the writes of the step state: " +
 			"every hand-over of stage input flips state Waiting->Running in the same critical section (R1); every entry into `waiting_for_input` is made in the critical section that tests the matching input-available flag and depends on it (R2); " +
 			"the detector and the input hand-over read/write under the run lock (R3); the detector reports only when no step is starting, none is running, no node is ready and no output was produced, and only after its retries are used up (R4).",
@@ -40,7 +40,7 @@ func c09R1(c *Ctx) {
 	sites := c.provideInputSends()
 	n := 0
 	for _, s := range sites {
-		if s.ch.Name() == "signalToStep" {
+		if fieldName(s.ch) == "signalToStep" {
 			continue
 		}
 		n++
@@ -57,26 +57,21 @@ func c09R1(c *Ctx) {
 			continue
 		}
 		flipped := false
-		eachInstr(s.fn, func(r instrRef) {
-			st, ok := r.I.(*ssa.Store)
-			if !ok {
-				return
+		for _, vs := range c.fieldStoresIn(s.fn, sf) {
+			if !isConstStr(vs.val, "running") {
+				continue
 			}
-			fa, ok := st.Addr.(*ssa.FieldAddr)
-			if !ok || fieldAddrVar(fa) != sf || !isConstStr(st.Val, "running") {
-				return
-			}
-			must, _ := la.Held(st)
+			must, _ := la.Held(vs.at)
 			held := false
 			for l := range must {
 				if isStepLock(l) {
 					held = true
 				}
 			}
-			if held && guardedBy(st, true, func(cond ssa.Value) bool { return condReadsFieldDeep(cond, sf) }) != nil {
+			if held && guardedBy(vs.at, true, func(cond ssa.Value) bool { return condReadsFieldDeep(cond, sf) }) != nil {
 				flipped = true
 			}
-		})
+		}
 		c.verdict(flipped, rule, key, c.instrPos(s.in), "the hand-over flips waiting_for_input -> running in the same critical section",
 			"the input is handed over but the state stays `waiting_for_input` until the consumer goroutine wakes up and sets `running` itself: if that goroutine is delayed, the deadlock detector (3 retries x 10 ms) sees no running step and aborts a run that could still complete")
 	}
@@ -443,4 +438,21 @@ func c09R4(c *Ctx) {
 		}
 	}
 	c.verdict(okRetry, rule, "retry-waits", c.pos(fn.Pos()), "the retry waits on a timer and re-checks with retries-1", "the detector does not give steps in a transition time (timer + retries-1) before reporting")
+}
+
+// C09.R5 = C12.R11: a step does not look finished to the detector while it still has notifications to deliver.
+func c09R5(c *Ctx) {
+	n0 := len(c.Obligations)
+	e0 := len(c.explanation)
+	c12Traces(c)
+	c.explanation = c.explanation[:e0]
+	c.explain("C09.R5 = C12.R11 on every explored path of a step goroutine no stage change or stage failure is reported in state `finished` before the completion: the detector runs while those notifications are processed and would count no active step although the step's output is still to come (a delay of the step goroutine then aborts a correct run)")
+	kept := c.Obligations[:n0]
+	for _, o := range c.Obligations[n0:] {
+		if o.Rule == "C12.R11" {
+			o.Rule = "C09.R5"
+			kept = append(kept, o)
+		}
+	}
+	c.Obligations = kept
 }
